@@ -25,20 +25,25 @@ CHECK = {
            '%$ is compared with show_to of the same object, and for 26 Array/List/Tuple/Table/Tree shapes the bracketed body must be '
            'the ", "-join of the elements\' own show texts in iteration order. Every specification in every context is also run with '
            'every too-small number of arguments and must raise FormatError. '
+           'Length ladder: for every N in 1..n and the neighbours (-2..+2) of each larger power of two, one chunk (a single format_to call inside print_to) '
+           'of exactly N output characters is produced in 11 ways (%Nd, %-Ns|%i, %.(N-2)f, %.Nd, N literal characters alone and before %d, %s and %$ of an '
+           'N-character String, %-Nc, %N.3e, %#0Nx) at starts {0, 5, current length} into the heap String, a File over open_memstream and a File over tmpfile(), '
+           'followed by a second print_to appended at the returned position; final content and both positions are compared with snprintf and the three sinks with each other. '
            'distinct_nontrivial = (specification, value) pairs whose C output differs from the output of the bare conversion '
            '(flags, width or precision change the text) + non-empty %$ scalar texts + container shapes with >= 2 elements + '
-           'too-few-argument cases in which an argument had already been consumed when FormatError was raised; each counted once (only by the gcc-built memstream instances)'),
+           'too-few-argument cases in which an argument had already been consumed when FormatError was raised + ladder (form, N) pairs with N >= 64; each counted once (only by the gcc-built memstream instances)'),
   'bounds': {
     'quick': ('flags: all defined subsets; width {none,5}; precision {none,.3}; all length modifiers; Int values {0,-1,42,128,-129,32768,INT_MAX,INT_MIN} '
               '(+ {2^32, INT64_MAX, INT64_MIN} for l ll j z t); 11 Float values incl. +-0, +inf, denormal, 1e300; 6 Strings incl. empty and 40 chars; '
               '6 chars; 6 objects for %p/%$ (heap String, Type, NULL, Ref, Box, Range); 8 contexts x 3 starts x 2 sinks (File over open_memstream); '
               '26 container shapes; too-few-arguments for every specification x context x smaller argument count x sink; '
-              'ASan+UBSan and a tmpfile-backed File over the same specifications with the level-0 values and starts {0,len}'),
+              'ASan+UBSan and a tmpfile-backed File over the same specifications with the level-0 values and starts {0,len}; '
+              'length ladder N = 1..300 and 510..514, 1022..1026, 2046..2050, 4094..4098 (gcc and ASan+UBSan builds)'),
     'thorough': ('flags: all defined subsets; width {none,1,5,12}; precision {none,.0,.3,.10}; all length modifiers; 14 Int values within int '
                  '(+5 beyond int for l ll j z t); 15 Float values incl. +-0, +-inf, nan, denormal, 1e300, 0.1, 123456.789, rounding ties; 6 Strings; '
                  '8 chars; 6 objects for %p/%$; 8 contexts x 3 starts x 2 sinks; 26 container shapes; too-few-arguments as in quick over the full '
                  'specification set; the whole grid is run three times: gcc build with File over open_memstream, clang ASan+UBSan build, '
-                 'gcc build with File over tmpfile()'),
+                 'gcc build with File over tmpfile(); length ladder N = 1..1100 and the neighbours of 2048, 4096, 8192 (gcc and ASan+UBSan builds)'),
   },
   'assumptions': [
     'values outside the boundary grids are represented by the grids (exhaustive over the grammar and the grids, not over int64 / double)',
@@ -55,7 +60,9 @@ CHECK = {
       + [T('show', 'base', 'mode=show', 'grid=full'),
          T('missing', 'base', 'mode=missing', 'grid=mid'),
          T('show-asan', 'asan', 'mode=show', 'grid=mid', 'count_nt=0'),
-         T('missing-asan', 'asan', 'mode=missing', 'grid=small', 'count_nt=0')]
+         T('missing-asan', 'asan', 'mode=missing', 'grid=small', 'count_nt=0'),
+         T('ladder', 'base', 'mode=ladder', 'n=300', 'pmax=4096'),
+         T('ladder-asan', 'asan', 'mode=ladder', 'n=300', 'pmax=4096', 'count_nt=0')]
       + grid_instances('small', 'asan', ['di', 'uoxX', 'fFeE', 'gGaA', 'csp$'], '-asan', ('count_nt=0',))
       + grid_instances('small', 'base', ['diuoxXcsp$', FLTS], '-tmpfile', ('file=tmpfile', 'count_nt=0'))
     ),
@@ -67,7 +74,9 @@ CHECK = {
          T('show-asan', 'asan', 'mode=show', 'grid=full', 'count_nt=0'),
          T('show-tmpfile', 'base', 'mode=show', 'grid=full', 'file=tmpfile', 'count_nt=0'),
          T('missing-int-asan', 'asan', 'mode=missing', 'grid=full', 'conv=' + INTS + 'csp$', 'count_nt=0'),
-         T('missing-float-asan', 'asan', 'mode=missing', 'grid=full', 'conv=' + FLTS, 'count_nt=0')]
+         T('missing-float-asan', 'asan', 'mode=missing', 'grid=full', 'conv=' + FLTS, 'count_nt=0'),
+         T('ladder', 'base', 'mode=ladder', 'n=1100', 'pmax=8192'),
+         T('ladder-asan', 'asan', 'mode=ladder', 'n=1100', 'pmax=8192', 'count_nt=0')]
       + grid_instances('full', 'asan', list(INTS) + list(FLTS) + ['csp$'], '-asan', ('count_nt=0',))
       + grid_instances('full', 'base', ['d', 'i', 'uo', 'xX', 'csp$', 'fF', 'eE', 'gG', 'aA'], '-tmpfile', ('file=tmpfile', 'count_nt=0'))
     ),
